@@ -459,6 +459,27 @@ class LayoutEval:
                 kwargs[k.arg] = self.ev(k.value, mod, local)
         if isinstance(f, Closure):
             return self.call_closure(f, args, kwargs)
+        if isinstance(f, tuple) and f[0] == "ext" and f[1] in ("functools.partial", "tlz.functoolz.curry", "toolz.functoolz.curry", "tlz.curry", "toolz.curry", "cytoolz.curry") and args:
+            return ("partial", args[0], tuple(args[1:]), tuple(sorted(kwargs.items(), key=lambda kv: kv[0])))
+        if isinstance(f, tuple) and f[0] == "partial":
+            # functools.partial(Enum, Int16ub)(name=1, ...): the bound arguments come first
+            inner, pre_args, pre_kwargs = f[1], list(f[2]), dict(f[3])
+            pre_kwargs.update(kwargs)
+            call2 = ast.Call(func=ast.Name(id="__partial_target__", ctx=ast.Load()), args=[], keywords=[])
+            ast.copy_location(call2, node)
+            env2 = dict(local)
+            env2["__partial_target__"] = inner
+            names = []
+            for i, a in enumerate(pre_args + args):
+                env2[f"__parg{i}__"] = a
+                names.append(ast.Name(id=f"__parg{i}__", ctx=ast.Load()))
+            kws = []
+            for k_, v_ in pre_kwargs.items():
+                env2[f"__pkw_{k_}__"] = v_
+                kws.append(ast.keyword(arg=k_, value=ast.Name(id=f"__pkw_{k_}__", ctx=ast.Load())))
+            call2.args, call2.keywords = names, kws
+            ast.fix_missing_locations(call2)
+            return self.call(call2, mod, env2)
         if isinstance(f, tuple):
             if f[0] == "sizeof":
                 sz = self.static_size(f[1])
